@@ -175,7 +175,42 @@ def run_kani_unit(name, workdir, tier, prop):
             continue
         selected.append((hname, h))
 
+    # result cache: the verdict of a harness is a function of (Kani version, every file of the stub crate incl. the
+    # function text just extracted from /repo, harness name, arguments).  Extraction always happens; CBMC is skipped only
+    # when exactly this input was decided before.  VERIF_NO_CACHE=1 disables it; evidence marks cached entries.
+    import hashlib
+    hsh = hashlib.sha256()
+    hsh.update(b"kani-0.68.0|" + " ".join(base_cmd).encode())
+    for root, dirs, files in sorted(os.walk(dst)):
+        dirs[:] = sorted(d for d in dirs if d != "target")
+        for fn in sorted(files):
+            fp = os.path.join(root, fn)
+            hsh.update(os.path.relpath(fp, dst).encode() + b"\0" + open(fp, "rb").read() + b"\0")
+    crate_key = hsh.hexdigest()
+    cache_dir = os.path.join(VERIF, ".cache", "kani")
+    use_cache = not os.environ.get("VERIF_NO_CACHE")
+
     def run_one(item):
+        hname, h = item
+        ckey = hashlib.sha256((crate_key + "|" + hname + "|" + " ".join(h.get("args", []))).encode()).hexdigest()
+        cpath = os.path.join(cache_dir, ckey + ".json")
+        if use_cache and os.path.exists(cpath):
+            try:
+                ent = json.load(open(cpath))
+                ent["from_cache"] = True
+                return ent, None
+            except Exception:
+                pass
+        entry, und = run_one_uncached(item)
+        if use_cache and und is None and entry.get("status") in ("SUCCESSFUL", "FAILED"):
+            try:
+                os.makedirs(cache_dir, exist_ok=True)
+                json.dump(entry, open(cpath, "w"))
+            except Exception:
+                pass
+        return entry, und
+
+    def run_one_uncached(item):
         hname, h = item
         hdst = dst + "_" + hname
         shutil.copytree(dst, hdst)
